@@ -231,7 +231,19 @@ TypeOf(x, C, P) ==
     [] e = "assert" -> IF Fits(TypeOf(x.c, C, P), BOOL) THEN UNIT ELSE ERR
     \* op(args)$D: D must be a domain of a known category that exports op with these argument types;
     \* D(A) requires A to satisfy the category of D's parameter
-    [] e = "dcall" ->
+    \* an unqualified use of an exported operation (the program imports the domains P.dimports): well typed iff exactly
+    \* one imported domain exports an operation of that name accepting the arguments -- two domains of one category make
+    \* the name ambiguous
+    [] e = "dcall" /\ "unqual" \in DOMAIN x ->
+         LET ts == TypesOf(x.args, C, P)
+             imps == IF "dimports" \in DOMAIN P THEN P.dimports ELSE <<>>
+             cands == {k \in 1..Len(imps) :
+                         LET D == P.doms[imps[k]] i == FindOp(P.cats[D.cat].ops, x.op) IN
+                         D.pcat = 0 /\ i # 0 /\ AllFit(ts, P.cats[D.cat].ops[i].pts)}
+         IN IF Cardinality(cands) = 1
+            THEN LET D == P.doms[imps[CHOOSE k \in cands : TRUE]] IN P.cats[D.cat].ops[FindOp(P.cats[D.cat].ops, x.op)].rt
+            ELSE ERR
+    [] e = "dcall" /\ "unqual" \notin DOMAIN x ->
          LET c == DomCat(x.dom, C, P) IN
          IF c = 0 THEN ERR
          ELSE LET i == FindOp(P.cats[c].ops, x.op) IN
@@ -282,7 +294,8 @@ FormsOk(i, G, P) ==
        ELSE LET d == P.top[j + 1] IN
             IF d.d = "var"
             THEN Fits(TypeOf(d.init, Ctx(G, ERR, FALSE, ERR), P), d.t)
-                 /\ FormsOk(i + 1, (d.x :> [t |-> d.t, asg |-> TRUE]) @@ G, P)
+                 \* `x: T == v` defines a constant: it cannot be assigned to, neither here nor through `free x` in a function
+                 /\ FormsOk(i + 1, (d.x :> [t |-> d.t, asg |-> ~("const" \in DOMAIN d /\ d.const)]) @@ G, P)
             ELSE Ok(TypeOf(d.x, Ctx(G, ERR, FALSE, ERR), P)) /\ FormsOk(i + 1, G, P)
 
 (* categories and domains: a definition must match the signature its category declares, its body  *)
